@@ -2,6 +2,7 @@ package props
 
 import (
 	"fmt"
+	"strings"
 	"testing"
 
 	"pgregory.net/rapid"
@@ -125,9 +126,24 @@ func TestC07(t *testing.T) {
 		if rapid.IntRange(0, 3).Draw(rt, "collidingdefs") == 0 {
 			addCollidingDefs(rt, c, f, "array")
 		}
+		var scen []string
+		if rapid.IntRange(0, 3).Draw(rt, "mergeoverlay") == 0 {
+			scen = addMergeOverlayScenario(rt, c, f, "array")
+		}
+		// array properties with a default AND limits: a given array is still measured
+		addOptionalDefaults(rt, c, f, 0.3, o)
 		cs := caseOf(baseConfig(), []string{f.RelPath}, f)
 		countShapes(c, f, cs.Config)
 		jobs := buildJobs(rt, c, f.Root, progRoot, plan, o, cs)
+		if len(scen) > 0 {
+			var kept []core.Job
+			for _, j := range jobs {
+				if !strings.Contains(j.Doc, `"astrict"`) && !strings.Contains(j.Doc, `"zzstrict"`) {
+					kept = append(kept, j)
+				}
+			}
+			jobs = append(kept, scenarioOnlyJobs(rt, c, f.Root, scen, map[string]bool{"array": true, "required": true}, o)...)
+		}
 		c.Sample(sampleOf(cs, jobs))
 		return &RunCase{Case: cs, Jobs: jobs, Model: modelIfSingle(cs, f)}
 	}, stdJudge)
